@@ -53,7 +53,7 @@ def gen_case(rng, ring, strict):
             est_h[0] += 1
             return "J%d" % sl
         if r < 0.62:
-            return "O%d,%s" % (sl, rng.choice(kinds))
+            return "O%d,%s%s" % (sl, rng.choice(kinds), rng.choice(["", "", "", ",0", ",1", ",2"]))
         if r < 0.66:
             return "U%d,%d" % (sl, rng.randrange(nsl))
         if r < 0.74:
@@ -78,8 +78,9 @@ def gen_case(rng, ring, strict):
 
     ops = []
     nopen = rng.randint(1, min(nsl, 4))
+    low = rng.sample([0, 1, 2], 3)
     for i in range(nopen):
-        ops.append("O%d,%s" % (i, rng.choice(kinds)))
+        ops.append("O%d,%s%s" % (i, rng.choice(kinds), (",%d" % low[i]) if i < 3 and rng.random() < 0.3 else ""))
     for i in range(nopen):
         if rng.random() < 0.85:
             if rng.random() < 0.15:
@@ -146,6 +147,27 @@ def foreign_cases():
             out.append("%d 0 ; O0,s I0 %s S0,3 %s I0 K0 R %s R T0,0 %s R S0,1 R %s R ; %s | %s" % (ring, y, y, y, y, y, y, y))
             out.append("%d 0 ; O0,t J0 %s S0,3 %s I0 K0 R %s R T0,2 %s R T0,1 %s R ; %s" % (ring, y, y, y, y, y, y))
             out.append("%d 0 ; O0,s O1,s I0 I1 S0,1 S1,3 K0 K1 R R ; %s Y%d,1 | %s Y%d,1" % (ring, y, k, y, k))
+    return out
+
+
+def lownum_cases():
+    """The second-handle / foreign-open / stop / close scenarios with the watched descriptor
+    moved (dup2) onto the numbers 0, 1 and 2: every guard must hold for every descriptor number."""
+    out = []
+    for ring in (1, 0):
+        for n in (0, 1, 2):
+            for kind in "st":
+                o = "O0,%s,%d" % (kind, n)
+                for k in range(3):
+                    y = "Y%d,0" % k
+                    out.append("%d 0 ; %s I0 %s S0,3 %s I0 K0 R %s I0 R R T0,0 %s R S0,1 R %s R ; %s I0 | %s" % (ring, o, y, y, y, y, y, y, y))
+                    out.append("%d 0 ; %s J0 %s S0,3 %s I0 K0 R %s I0 R R T0,2 %s R T0,1 %s R ; %s I0" % (ring, o, y, y, y, y, y, y))
+                # two poll handles on the number: the idle one is stopped / closed, the other keeps firing
+                out.append("%d 0 ; %s I0 I0 S1,1 K0 R C0 R R T1,0 R ; " % (ring, o))
+                out.append("%d 0 ; %s I0 I0 S1,1 K0 R T0,0 R R S0,1 R ; " % (ring, o))
+                # close + re-open on the same low number inside a callback, dup kept elsewhere
+                out.append("%d 1 ; %s O1,s I0 I1 S0,1 S1,1 K0 K1 R R R ; U0,2 C0 X0 %s K0 I0 S2,3 | " % (ring, o, o))
+                out.append("%d 0 ; %s I0 S0,9 K0 R T0,0 U0,1 C0 X0 %s I0 S1,1 R K1 R R ; " % (ring, o, o))
     return out
 
 
@@ -461,7 +483,7 @@ def main():
     if os.path.exists(cp):
         corpus = [l.rstrip("\n") for l in open(cp) if l.strip() and not l.startswith("#")]
     n = 120000 if thorough else 2400
-    cases = list(FIXED) + corpus + sweep_cases() + notify_cases() + foreign_cases()
+    cases = list(FIXED) + corpus + sweep_cases() + notify_cases() + foreign_cases() + lownum_cases()
     for i in range(1200 if thorough else 120):
         cases.append(stale_case(chk.rng, i % 2))
     for i in range(n):
